@@ -71,8 +71,9 @@ struct ExCheck : Check {
 			if (k == 7) { long a = r.range(1, n()); long d = r.range(0, n() - a); return std::to_string(a) + "+" + std::to_string(d); }
 			if (k == 8) { long a = r.range(1, n()); long d = r.range(0, a - 1); return std::to_string(a) + "-" + std::to_string(d); }
 			if (k == 9) return "$-" + std::to_string(r.range(0, n() - 1));
-			if (k == 10) return "/" + std::string(WORDS[r.below(12)]) + "/";
-			return "?" + std::string(WORDS[r.below(12)]) + "?";
+			// (now and then the pattern contains its own delimiter, escaped)
+			if (k == 10) return r.chance(1, 5) ? std::string("/a\\/b/") : "/" + std::string(WORDS[r.below(12)]) + "/";
+			return r.chance(1, 8) ? std::string("?a\\?b?") : "?" + std::string(WORDS[r.below(12)]) + "?";
 		}
 		std::string good_range()
 		{
@@ -151,7 +152,18 @@ struct ExCheck : Check {
 		case 11: case 12: g.emit((bad ? g.bad_addr() : g.good_range()) + "p", "", "p"); break;
 		case 13: g.emit((bad ? g.bad_addr() : (r.chance(1, 3) ? "$" : r.chance(1, 2) ? "." : g.good_addr())) + "=", "", "="); break;
 		case 14: case 15: g.emit((bad ? g.bad_addr() : g.good_addr()) + "k" + std::string(1, (char) ('a' + r.below(6))), "", "k"); break;
-		case 16: { std::string rng = g.good_range(); if (rng.empty()) rng = "."; g.emit((bad ? g.bad_addr() : rng) + "!" + filter_cmd(r), "", "!"); break; }
+		case 16: {
+			std::string rng = g.good_range(); if (rng.empty()) rng = ".";
+			if (!bad && g.n() > 0 && r.chance(1, 8)) {
+				// the command cannot be started (fork fails): nothing may happen to the addressed lines
+				Step s; s.keys = std::string(g.vi ? ":" : "") + rng + "!" + filter_cmd(r) + "\n";
+				s.meta = Json::obj(); s.meta.set("k", "!fail");
+				Fault f; f.seam = "fork"; f.nth = 0; f.effect = "fail"; s.faults.push_back(f);
+				g.p.steps.push_back(s);
+				g.cur_known = false;
+				break;
+			}
+			g.emit((bad ? g.bad_addr() : rng) + "!" + filter_cmd(r), "", "!"); break; }
 		case 17: {
 			// set a register to ex commands, then execute it
 			char rname = (char) ('x' + r.below(3));
@@ -395,6 +407,14 @@ struct ExCheck : Check {
 			follow_marks(c);	// (which marks an undo brings back is not this property's subject)
 			M.cur = c.nlines() ? c.row() + 1 : 0;
 			have_before_g = false;
+			return;
+		}
+		if (kind == "!fail") {
+			c.compared();
+			c.count("filters_that_could_not_start");
+			compare_text(c, ctx + " (fork failed: the command never ran, the buffer must be unchanged)", pid + "/!/fork-failed");
+			M.cur = c.nlines() ? c.row() + 1 : 0;
+			follow_marks(c);
 			return;
 		}
 		std::vector<std::string> text_before = M.text();
